@@ -48,13 +48,15 @@ Tok ==   \* token -> value
     \* is the proxy type); an object whose __class__ attribute says str
     pxA |-> V("proxy", NoNum, "A"), lieS |-> V("liar", NoNum, "str"),
     \* an instance of the very class that declares the trait (for This), alone and as the first item of a pair
-    oSelf |-> V("self", NoNum, ""), t_selfa |-> V("tuple", NoNum, "T") ]
+    oSelf |-> V("self", NoNum, ""), t_selfa |-> V("tuple", NoNum, "T"),
+    \* instances of a tuple SUBCLASS (a namedtuple): (1, "a") and ("5", "a")
+    nt_1a |-> V("tuplesub", NoNum, "T"), nt_5a |-> V("tuplesub", NoNum, "T") ]
 Tokens == DOMAIN Tok
 \* items of the sequence-valued tokens
 Items(t) == CASE t = "t_" -> <<>> [] t = "t_1a" -> <<"i1", "s_a">> [] t = "t_2h5" -> <<"f2h", "s_5">>
               [] t = "t_1a1" -> <<"i1", "s_a", "i1">> [] t = "t_12" -> <<"i1", "i2">>
               [] t = "t_s10s9" -> <<"s_10", "s_9">> [] t = "t_s9s10" -> <<"s_9", "s_10">> [] t = "l_1a" -> <<"i1", "s_a">>
-              [] t = "t_selfa" -> <<"oSelf", "s_a">> [] OTHER -> <<>>
+              [] t = "t_selfa" -> <<"oSelf", "s_a">> [] t = "nt_1a" -> <<"i1", "s_a">> [] t = "nt_5a" -> <<"s_5", "s_a">> [] OTHER -> <<>>
 
 \* ---- results
 Store(w) == [tag |-> "store", w |-> w, e |-> ""]
@@ -128,7 +130,7 @@ CastStr(t) == IF Ty(t) = "str" THEN Same(t) ELSE IF Ty(t) = "strsub" THEN Store(
               ELSE Store(V("str", NoNum, "?"))
 Truthy(t) == CASE Tok[t].num # NoNum -> Tok[t].num \notin {0, NegZero}
                [] Ty(t) \in {"str", "strsub", "bytes"} -> Tok[t].s # ""
-               [] Ty(t) \in {"tuple", "list"} -> Items(t) # <<>>
+               [] Ty(t) \in {"tuple", "tuplesub", "list"} -> Items(t) # <<>>
                [] Ty(t) = "none" -> FALSE
                [] OTHER -> TRUE
 CastBool(t) == IF Ty(t) = "bool" THEN Same(t) ELSE Store(V("bool", IF Truthy(t) THEN 2 ELSE 0, ""))
@@ -211,6 +213,9 @@ EqTok(a, b) ==   \* Python == between two values of the pool (used by Enum membe
   ELSE a = b
 \* Assign: what an assignment does = the fast path when the trait has one, else the Python method.
 \* Members of Tuple / Union are CTraits: their validation goes through Assign of the member.
+IsTup(t) == Ty(t) \in {"tuple", "tuplesub"}
+\* every item came back as the very object it was
+Unchanged(its, rs) == \A k \in 1..Len(its) : rs[k] = Same(its[k])
 RECURSIVE Py(_, _), Fast(_, _), Assign(_, _)
 Py(cfg, t) ==
   CASE cfg.t = "Any" -> Same(t)
@@ -266,7 +271,7 @@ Py(cfg, t) ==
     \* ValidatedTuple(m1, m2, fvalidate = first < second): BaseTuple validation, then the predicate on the
     \* converted members
     [] cfg.t = "VTuple" ->
-         IF Ty(t) \notin {"tuple", "list"} \/ Len(Items(t)) # 2 THEN Reject
+         IF Ty(t) \notin {"tuple", "tuplesub", "list"} \/ Len(Items(t)) # 2 THEN Reject
          ELSE LET a == Assign(cfg.ms[1], Items(t)[1])  b == Assign(cfg.ms[2], Items(t)[2]) IN
               IF a.tag = "store" /\ b.tag = "store" /\ a.w.num # NoNum /\ b.w.num # NoNum /\ FLt(a.w.num, b.w.num)
               THEN Store(V("tuple", NoNum, "T")) ELSE Reject
@@ -275,13 +280,15 @@ Py(cfg, t) ==
     \* Tuple() without member types: any tuple; lists are converted (deprecated)
     \* BaseTuple.validate: lists are converted, every exception of a member is swallowed into TraitError
     \* Tuple.validate (the fast class): only tuples, only TraitError of a member is swallowed
+    \* a tuple (an instance of a subclass too) none of whose items needed converting is returned AS IT IS by the fast class
+    \* (Tuple.validate after the repair of finding F35, like the compiled validator); BaseTuple always makes a plain tuple
     [] cfg.t = "Tuple" ->
-         IF cfg.ms = <<>> THEN (IF Ty(t) = "tuple" THEN Same(t) ELSE IF Ty(t) = "list" THEN Store(V("tuple", NoNum, "T")) ELSE Reject)
-         ELSE IF Ty(t) \notin (IF cfg.fast THEN {"tuple"} ELSE {"tuple", "list"}) \/ Len(Items(t)) # Len(cfg.ms) THEN Reject
+         IF cfg.ms = <<>> THEN (IF IsTup(t) THEN Same(t) ELSE IF Ty(t) = "list" THEN Store(V("tuple", NoNum, "T")) ELSE Reject)
+         ELSE IF Ty(t) \notin (IF cfg.fast THEN {"tuple", "tuplesub"} ELSE {"tuple", "tuplesub", "list"}) \/ Len(Items(t)) # Len(cfg.ms) THEN Reject
          ELSE LET its == Items(t)
                   rs  == [k \in 1..Len(its) |-> Assign(cfg.ms[k], its[k])]
                   bad == {k \in 1..Len(its) : rs[k].tag # "store"}
-              IN IF bad = {} THEN Store(V("tuple", NoNum, "T"))
+              IN IF bad = {} THEN (IF cfg.fast /\ Unchanged(its, rs) THEN Same(t) ELSE Store(V("tuple", NoNum, "T")))
                  ELSE LET k == CHOOSE j \in bad : \A i \in bad : j <= i IN
                       IF cfg.fast /\ rs[k].tag = "prop" THEN rs[k] ELSE Reject
     \* Either (TraitCompound.validate): the Python validate methods of the alternatives, in order;
@@ -343,12 +350,12 @@ Fast(cfg, t) ==
     \* Tuple(): (coerce, tuple, None, list); validate_trait_tuple_check: only real tuples; a member's
     \* non-TraitError exception propagates
     [] cfg.t = "Tuple" ->
-         IF cfg.ms = <<>> THEN (IF Ty(t) = "tuple" THEN Same(t) ELSE IF Ty(t) = "list" THEN Store(V("tuple", NoNum, "T")) ELSE Reject)
-         ELSE IF Ty(t) # "tuple" \/ Len(Items(t)) # Len(cfg.ms) THEN Reject
+         IF cfg.ms = <<>> THEN (IF IsTup(t) THEN Same(t) ELSE IF Ty(t) = "list" THEN Store(V("tuple", NoNum, "T")) ELSE Reject)
+         ELSE IF ~IsTup(t) \/ Len(Items(t)) # Len(cfg.ms) THEN Reject          \* PyTuple_Check: subclasses too
          ELSE LET its == Items(t)
                   rs  == [k \in 1..Len(its) |-> Assign(cfg.ms[k], its[k])]
                   bad == {k \in 1..Len(its) : rs[k].tag # "store"}
-              IN IF bad = {} THEN Store(V("tuple", NoNum, "T"))
+              IN IF bad = {} THEN (IF Unchanged(its, rs) THEN Same(t) ELSE Store(V("tuple", NoNum, "T")))   \* a new tuple only if an item changed
                  ELSE LET k == CHOOSE j \in bad : \A i \in bad : j <= i IN
                       IF rs[k].tag = "prop" THEN rs[k] ELSE Reject
     \* validate_trait_complex: the table of fast validators in order (a nested compound's table is spliced
@@ -371,7 +378,7 @@ FirstOK(cfg, t, mode) ==
 RECURSIVE Members(_, _, _)
 Members(cfg, t, mode) ==
   LET r == Eval(mode, cfg, t) IN
-  IF r.tag # "store" \/ r.w.ty # "tuple" THEN <<>>
+  IF r.tag # "store" \/ r.w.ty \notin {"tuple", "tuplesub"} THEN <<>>
   ELSE IF (cfg.t = "Tuple" /\ cfg.ms # <<>>) \/ cfg.t = "VTuple" THEN [k \in 1..Len(Items(t)) |-> Assign(cfg.ms[k], Items(t)[k]).w]
   ELSE IF IsUnion(cfg) THEN Members(cfg.ms[FirstOK(cfg, t, mode)], t, AltMode(mode, cfg))
   ELSE [k \in 1..Len(Items(t)) |-> Tok[Items(t)[k]]]
@@ -405,7 +412,7 @@ InDomain(cfg, w, members) ==       \* members: stored member values when w is a 
     [] cfg.t = "Type" -> (cfg.an /\ w.ty = "none") \/ (w.ty = "class" /\ (w.s = cfg.k \/ (cfg.k = "A" /\ w.s = "B")))
     [] cfg.t = "This" -> (cfg.an /\ w.ty = "none") \/ w.ty = "self"
     [] cfg.t = "Callable" -> (cfg.an /\ w.ty = "none") \/ w.ty \in {"function", "class"}
-    [] cfg.t = "Tuple" -> w.ty = "tuple" /\ (cfg.ms = <<>> \/ Len(members) = Len(cfg.ms))
+    [] cfg.t = "Tuple" -> w.ty \in {"tuple", "tuplesub"} /\ (cfg.ms = <<>> \/ Len(members) = Len(cfg.ms))
                           /\ (cfg.ms = <<>> \/ \A k \in 1..Len(members) : InDomain(cfg.ms[k], members[k], <<>>))
     [] cfg.t = "String" -> w.ty = "str" /\ cfg.mn <= w.num /\ (cfg.mx = None9 \/ w.num <= cfg.mx)
                            /\ (~cfg.re \/ w.s \in {"a", "aaa"})
